@@ -542,7 +542,7 @@ func (c *Ctx) TPL(rule string) []report.Obligation {
 				if !isC || bv {
 					continue
 				}
-				if ev := retValue(r, 2); !isNilOrConst(ev) {
+				if ev := errRet(r); !isNilOrConst(ev) {
 					// `if !found || err != nil { return "", false, err }`: edge by edge, either the error is known
 					// to be set (an error return) or the operator was not found
 					plain := 0
@@ -769,7 +769,7 @@ func (c *Ctx) TPL(rule string) []report.Obligation {
 	if f := c.P.Func("template.DefaultReplacementAppliedFunc"); f != nil {
 		good := false
 		for _, r := range returnsOf(f) {
-			ev := retValue(r, 2)
+			ev := errRet(r)
 			mi, ok := ev.(*ssa.MakeInterface)
 			if !ok || !strings.Contains(c.P.TypeStr(mi.X.Type()), "InvalidTemplateError") {
 				continue
